@@ -200,6 +200,9 @@ func (b Bytes) ParseUint() (uint, error) {
 		if !IsDigit(c) {
 			return 0, errs.ErrInvalidByteInParseUint.F(string(c), b)
 		}
+		if u > (math.MaxUint-uint(c-'0'))/10 {
+			return 0, errs.ErrTooMuchDataForInt.F()
+		}
 		u = u*10 + uint(c-'0')
 	}
 	return u, nil
